@@ -21,7 +21,10 @@ from typing import List
 from vsym import ob
 from vsym.ob import Ob
 
+from harness import _C14_chfix
 from harness import _C14_fakefs as ffs
+
+_C14_chfix.apply()  # tool work-around; a no-op outside the CrossHair worker process
 
 PROPERTY = 'C14'
 
